@@ -445,7 +445,7 @@ def run(ctx):
     from .c17 import render_readonly_rule
 
     r = ctx.rule("C13-R7", "READONLY", "rendering a help page succeeds the second time too: render() leaves the help object's own state as it found it "
-                 "(a builder kept on the object and extended per render raises 'option exists already' on the next render; same rule as C17-R5)", reference=2)
+                 "(a builder kept on the object and extended per render raises 'option exists already' on the next render; same rule as C17-R5)", reference=1)
     render_readonly_rule(ctx, r, mod_pred=lambda m: m.startswith("clikit.ui.help"))
     if r.n == 0:
         r.fail(ab, ab.node, "no help component", "no help component with a render() found")
